@@ -75,6 +75,7 @@ fn case1<T: Elem>(case: u64, args: &Args, ev: &mut Ev) {
             extrapolate,
             max_n: 14,
             max_lane_rank: 2,
+            extreme_magnitudes: true,
             ..Default::default()
         },
     );
@@ -183,6 +184,7 @@ fn case2<T: Elem>(case: u64, args: &Args, ev: &mut Ev) {
             max_nx: 7,
             max_ny: 6,
             max_lane_rank: 2,
+            extreme_magnitudes: true,
             ..Default::default()
         },
     );
